@@ -2278,6 +2278,7 @@ class AggregateBase(UnitsManaged, Saveable, OpenSystem):
                 for aa_2x in range(N1b, N2b):
                     for alpha in range(N1b):
                         self.Wd[aa_2x, alpha] = 0.0
+                        self.Dr[aa_2x, alpha] = 0.0
                         for nn_2x in range(N1b, N2b):
                             for k_1x in range(N1b):
                                 st_n = self.twoex_indx[nn_2x, 0]
@@ -2287,9 +2288,16 @@ class AggregateBase(UnitsManaged, Saveable, OpenSystem):
                                     ((self.Wd[st_n, st_n]**2)*delta[st_n, k_1x] +
                                      (self.Wd[st_m, st_m]**2)*delta[st_m, k_1x])*\
                                      (SS[nn_2x, aa_2x]**2)*(SS[k_1x, alpha]**2)
+                                # dephasing rates (get_transition_dephasing
+                                # reads these blocks without squaring them)
+                                self.Dr[aa_2x, alpha] += \
+                                    ((self.Dr[st_n, st_n]**2)*delta[st_n, k_1x] +
+                                     (self.Dr[st_m, st_m]**2)*delta[st_m, k_1x])*\
+                                     (SS[nn_2x, aa_2x]**2)*(SS[k_1x, alpha]**2)
     
                 self.Wd[N1b:N2b,0:N1b] = numpy.sqrt(self.Wd[N1b:N2b,0:N1b])
                 self.Wd[0:N1b,N1b:N2b] = numpy.transpose(self.Wd[N1b:N2b,0:N1b])
+                self.Dr[0:N1b,N1b:N2b] = numpy.transpose(self.Dr[N1b:N2b,0:N1b])
     
                 #
                 # Transform line shapes for 1->2 transitions
@@ -2305,11 +2313,15 @@ class AggregateBase(UnitsManaged, Saveable, OpenSystem):
                         Wd_a[aa] += (SS[nn, aa]**2)*\
                                     ((self.Wd[st_n, st_n]**2)*kappa[st_n, aa]
                                     +(self.Wd[st_m, st_m]**2)*kappa[st_m, aa])
+                        Dr_a[aa] += (SS[nn, aa]**2)*\
+                                    ((self.Dr[st_n, st_n]**2)*kappa[st_n, aa]
+                                    +(self.Dr[st_m, st_m]**2)*kappa[st_m, aa])
                              
                         
                 W_aux = numpy.diag(numpy.sqrt(Wd_a))
                 #W_aux = numpy.diag(numpy.sqrt(Wd_b))
                 self.Wd[N1b:N2b,N1b:N2b] = W_aux[N1b:N2b,N1b:N2b]
+                self.Dr[N1b:N2b,N1b:N2b] = numpy.diag(Dr_a)[N1b:N2b,N1b:N2b]
     
             #
             # Transform line shapes for 0->1 transitions
